@@ -45,7 +45,7 @@ def nontrivial(scn, allowed):
 
 def runs_for(tier):
     base = dict(NVals=2, NKeys=2, Terms={"C", "E", "U"}, Durs={1, 2}, DKinds={"N"}, KeyMode="some", ElemMode="some",
-                Faults=False, Disposes=False, DCounts=set(), RxG={0}, LongLen=4)
+                Faults=False, Disposes=False, OuterOnly=True, DCounts=set(), RxG={0}, LongLen=4)
 
     def c(ops, ml, mt, **kw):
         d = dict(base, Ops=set(ops), MaxLen=ml, MaxT=mt, H=mt + 1)
@@ -92,7 +92,7 @@ def sampled_runs(tier):
     if tier == "quick":
         return []
     big = dict(NVals=4, NKeys=3, Terms={"C", "E", "U"}, Durs={1, 2, 3, 5}, DKinds={"N", "C"}, KeyMode="all", ElemMode="all",
-               Faults=False, Disposes=True, DCounts={1, 2, 3}, RxG={0, 0, 1, 2, 3}, LongLen=9, MaxLen=5, MaxT=9, H=11)
+               Faults=False, Disposes=True, OuterOnly=True, DCounts={1, 2, 3}, RxG={0, 0, 1, 2, 3}, LongLen=9, MaxLen=5, MaxT=9, H=11)
     out = [("sampled " + o, o, dict(big, Ops={o}), 1500) for o in ALL]
     out.append(("sampled faults group_by_until", "group_by_until", dict(big, Ops={"group_by_until"}, Faults=True,
                                                                        DKinds={"N", "E"}), 1500))
